@@ -2,6 +2,7 @@
 import sd
 import engine
 import props.c11 as c11
+import props.c16 as c16
 
 META = {
     'explanation': 'Static rules over src/stroke.rs and DrawTarget::stroke: R04.1 join_line dispatches Round->join_round(arc), Bevel->bevel, '
@@ -20,5 +21,20 @@ META = {
 }
 
 
+def flatten_rules(c):
+    """the stroker consumes Path::flatten's output: the flattening clauses are part of the stroke pipeline"""
+    fb = c.body(c16.FLATTEN, 'R16')
+    fm = c16.op_match(c, fb, 'R16.1', 'path_builder::Path::flatten')
+    if fm is not None:
+        c16.r16_1(c, fb, fm)
+        c16.r16_2(c, fb, fm)
+        c16.r16_6(c, fb, fm)
+        c16.r16_3(c, fb, fm)
+        c16.r16_5(c, fb, fm)
+
+
+flatten_rules.__name__ = 'r16_flatten'
+
+
 def run(ctx):
-    engine.run_rules(ctx, [sd.r04_6, sd.r04_7, sd.r04_1, sd.r04_2, sd.r04_3, sd.r04_4, sd.r04_5, c11.r11_3])
+    engine.run_rules(ctx, [sd.r04_6, sd.r04_7, sd.r04_8, sd.r04_1, sd.r04_2, sd.r04_3, sd.r04_4, sd.r04_5, c11.r11_3, flatten_rules])
